@@ -454,3 +454,35 @@ def sx_shrinks(s, depth=0):
                 yield sx_replace(s, path, c2)
 
 # }}}
+
+
+def hashcons(e, memo=None):
+    """Rebuild `e` so that structurally equal subtrees are ONE shared object (the sharing-heavy
+    mode of the generators: `x*x` written with the same `x` object twice)."""
+    import dataclasses
+
+    import pymbolic.primitives as p
+    if memo is None:
+        memo = {}
+    if isinstance(e, tuple):
+        new = tuple(hashcons(c, memo) for c in e)
+    elif isinstance(e, list):
+        return [hashcons(c, memo) for c in e]
+    elif isinstance(e, p.Expression) and dataclasses.is_dataclass(e):
+        kw = {}
+        for f in dataclasses.fields(e):
+            v = getattr(e, f.name)
+            if isinstance(v, (tuple, p.Expression)):
+                kw[f.name] = hashcons(v, memo)
+            elif hasattr(v, "items"):
+                kw[f.name] = {k: hashcons(c, memo) for k, c in v.items()}
+            else:
+                kw[f.name] = v
+        new = type(e)(**kw)
+    else:
+        return e
+    try:
+        key = dumps(expr_to_sx(new))
+    except Exception:
+        return new
+    return memo.setdefault(key, new)
